@@ -16,6 +16,11 @@ import WuffsVerif.Model.Jpeg.Spec
   idct <64 comma-separated ints>               -> v <64 bytes hex>
   stdquant <which> <quality>                   -> v <64 bytes hex>
   specdecode <hex>                             -> none | ok <w> <h> <id:h:v:tq,…> <qtab hex,…> <block;block;…>
+  per-function ops (scratch Encoder, nothing kept):
+  emitbits <bitsV> <bitsN> <v> <n>             -> v <hex> <bitsV'> <bitsN'>
+  huffrun <bitsV> <bitsN> <which> <run> <value> -> v <hex> <bitsV'> <bitsN'>
+  encblock <bitsV> <bitsN> <p0> <p1> <p2> <q0> <q1> <comp> <block>
+                                               -> v <hex> <bitsV'> <bitsN'> <p0'> <p1'> <p2'>
 -/
 open WuffsVerif WuffsVerif.Line WuffsVerif.Jpeg
 
@@ -108,6 +113,31 @@ def c18Step (e : Encoder) (l : List String) : Encoder × String :=
     match which.toNat?, quality.toInt? with
     | some w, some q => (e, "v " ++ natsToHex (setToStandardValues w q).toList)
     | _, _ => (e, "bad-op")
+  | ["emitbits", bv, bn, v, n] =>
+    match bv.toNat?, bn.toNat?, v.toNat?, n.toNat? with
+    | some bv, some bn, some v, some n =>
+      let (e', out) := emitBits { bitsV := bv, bitsN := bn } #[] v n
+      (e, s!"v {natsToHex out.toList} {e'.bitsV} {e'.bitsN}")
+    | _, _, _, _ => (e, "bad-op")
+  | ["huffrun", bv, bn, wh, run, value] =>
+    match bv.toNat?, bn.toNat?, wh.toNat?, run.toNat?, value.toInt? with
+    | some bv, some bn, some wh, some run, some value =>
+      let (e', out) := emitHuffmanRun { bitsV := bv, bitsN := bn } #[] wh run value
+      (e, s!"v {natsToHex out.toList} {e'.bitsV} {e'.bitsN}")
+    | _, _, _, _, _ => (e, "bad-op")
+  | ["encblock", bv, bn, p0, p1, p2, q0, q1, comp, blk] =>
+    match bv.toNat?, bn.toNat?, p0.toInt?, p1.toInt?, p2.toInt? with
+    | some bv, some bn, some p0, some p1, some p2 =>
+      match parseQuant q0, parseQuant q1, comp.toNat?, parseInts blk with
+      | some q0, some q1, some comp, some b =>
+        if q0.size != 64 || q1.size != 64 || b.size != 64 || comp > 2 then (e, "bad-op")
+        else
+          let e0 : Encoder := { bitsV := bv, bitsN := bn, prevDC0 := p0, prevDC1 := p1, prevDC2 := p2,
+                                quants0 := q0, quants1 := q1 }
+          let (e', out) := encodeBlock e0 #[] comp b
+          (e, s!"v {natsToHex out.toList} {e'.bitsV} {e'.bitsN} {e'.prevDC0} {e'.prevDC1} {e'.prevDC2}")
+      | _, _, _, _ => (e, "bad-op")
+    | _, _, _, _, _ => (e, "bad-op")
   | ["specdecode", h] =>
     match fromHex h with
     | some bs =>
